@@ -26,9 +26,9 @@ CHECKS = {
    technique="TLA+ fork/range/lock protocol model checked by TLC; generated-script configurations decided by TLC; schedule replay into the real primitives; trace validation of hooked real multi-process runs"),
  'C19': dict(
    category='model_checking',
-   text="ExprLang.tla states the documented reading of the expression language (syntax trees, rendering, the documented rules as a declarative count of index occurrences, the meaning as explicit index-notation sums over exact rationals); ExprParse.tla models the algorithm of expression_v2._Parser/_FunctionArrayOps (one operator per parse_* method) with a derivation machine (one action per production, rule-breaking constructors, token-level corruptions). TLC checks over every derivable tree that the algorithm accepts exactly the trees that follow the documented rules and that its array equals the index-notation reading (VerdictAgree, FreeAgree, MeaningAgree). Every complete state is emitted with the predicted verdict and array and fed to the real `expr @ ns`, `ns.x_ij = expr` (v2) and `ns.eval_ij(expr)` (v1): exception class, shape, axis order and values (both sides of an interface for jump/mean) must agree (S->C).",
-   note="Depth <= 3 exhaustive per production, simulation beyond; gradients/normals only on tiny meshes; error message texts are not compared; v1-only features (substitution, linked lengths) are covered only where they share the v2 grammar.",
-   technique="TLA+ grammar/meaning model + parser-algorithm model checked by TLC; derivations replayed on the real expression_v1/v2 namespaces"),
+   text="Two TLA+ model pairs. ExprLang/ExprParse (v2 and the shared grammar): the documented reading (syntax trees, rendering, the rules as a declarative count of index occurrences, the meaning as explicit index-notation sums over exact two-sided rationals) and a model of the algorithm of expression_v2._Parser/_FunctionArrayOps (one operator per parse_* method) with a derivation machine (one action per production, rule-breaking constructors, token-level corruptions); TLC checks over every derivable tree VerdictAgree, FreeAgree, MeaningAgree. ExprV1Lang/ExprV1Parse (version-1-only language): arguments ?u_i with deduced axis lengths, dirac, indexed numbers, gradients and surface gradients, normal, substitution, calls with several arguments incl. d(f, x_i) and d(f, ?u); length deduction stated as equivalence classes of links between length terms with the verdicts known / undetermined / conflicting, with and without fallback_length, cross-checked against the solutions of the link equations; TLC checks a model of the _Array linked-length bookkeeping against that reading (VerdictAgree, FreeAgree, GroupsAgree, InferenceSound; five spec mutants each violate one; chains of three or more links in every order); derivatives of quadratic data by exact rules. Every complete state is emitted with the predicted verdict, shape, free-index order, argument shapes and values and fed to the real `expr @ ns`, `ns.x_ij = expr` (v2) and `ns.eval_ij(expr)`, assignment and `@` (v1, plain and fallback_length namespaces): exception class, shape, axis order, argument shapes and values on both sides of an interface must agree (S->C).",
+   note="Depth <= 3 exhaustive per production, simulation beyond; data are quadratic on a straight interface of a two-element mesh; judged on validity, shape and order only: derivatives of order three or more through quotients and powers, derivatives to an argument of a substituted expression, nested substitutions; substituted values are numbers, constant arrays and arguments; outside the model: stack <a, b>_i, consumed/generated axes f:i(...), the all-indices-omitted reading, J:x / d:x, surfgrad(f, x_i) / n(x_i), fixed lengths length_<indices>=, default_geometry_name, the deprecated _,x_i / n:x_i / _,?u spellings (SyntaxError); error message texts are not compared.",
+   technique="TLA+ grammar/meaning models + parser-algorithm models (v2 parser, v1 linked-length bookkeeping) checked by TLC; derivations replayed on the real expression_v1/v2 namespaces"),
  'C09': dict(
    category='model_checking',
    text="SampleAlg.tla models every sample class of sample.py (_DefaultIndex, _CustomIndex, _Empty, _Add, _Mul, _TakeElements, _Zip) with a code layer (nelems/npoints/getindex/evaluable indices computed as the class does) and a denotation (elements, points, weight factors); TLC checks IndexPartition, EvalOrder, EvIndexAgrees, Quadrature, OpLaw over all nestings of the public operations; every nesting is rebuilt from real base samples and compared on nelems, npoints, getindex, row-by-row eval and integrate = sum(weight x value). GaussOracle.tla gives exact monomial integrals (dyadic affine images of references, closed simplex formula) for all reference elements, child subsets and dyadic half-space trims; TLC checks RefVolume/ChildrenTile/TrimSplits and the live decompositions exported from the code (T); Gauss schemes of all degrees are compared with the oracle (2e-13), plus points-inside and sum of weights.",
